@@ -6,7 +6,8 @@ Alphabet : 20 import statement forms (import a / a.b / a.b.c, aliased, several m
            statement, from-import of attributes and of not-yet-imported submodules, with aliases,
            relative imports of level 1 and 2 with and without a module part).
 Histories: every sequence of <= 2 (quick) / <= 3 (thorough) statements (import state is a state
-           machine: sys.modules) x placement {module, function, class} x caller identity
+           machine: sys.modules) x placement {module, function, class, function whose inner function and inner class
+           body read the names, inner function with `nonlocal`, function with `global`} x caller identity
            {top-level script, module inside vpk.sub} x 8 option combinations; vpk* is purged from
            sys.modules before every run.
 Oracle   : equal import log (which modules, order, each once), equal sys.modules delta, every bound
@@ -47,6 +48,7 @@ FORMS = [
     ("rel2-module", "from ..other import val as v2", ["v2"], True),
     ("rel1-two", "from . import sib as sb, mod as md", ["sb", "md"], True),
 ]
+PLACEMENTS = ("module", "function", "class", "closure", "nonlocal", "globaldecl")
 CALLERS = {"script": ("__main__", None), "package": ("vpk.sub.caller", "vpk.sub")}
 
 
@@ -85,6 +87,20 @@ def render(seq, placement):
         return stmts + "\nprint(show(%s), state())\n" % pairs
     if placement == "function":
         return "def F():\n%s\n    print(show(%s), state())\n    return %s\nR = F()\n" % (_ind(stmts), pairs, names[0])
+    if placement == "closure":
+        # bound by the import in F only; read as a free variable of an inner function and of an inner class body
+        return (
+            "def F():\n%s\n    def G():\n        return show(%s)\n    class C:\n        r = show(%s)\n"
+            "    print(G(), C.r == G(), state())\n    return %s\nR = F()\n" % (_ind(stmts), pairs, pairs, names[0])
+        )
+    if placement == "nonlocal":
+        init = "\n".join("%s = None" % n for n in names)
+        return (
+            "def F():\n%s\n    def G():\n        nonlocal %s\n%s\n    G()\n    print(show(%s), state())\n    return %s\nR = F()\n"
+            % (_ind(init), ", ".join(names), _ind(_ind(stmts)), pairs, names[0])
+        )
+    if placement == "globaldecl":
+        return "def F():\n    global %s\n%s\nF()\nprint(show(%s), state())\n" % (", ".join(names), _ind(stmts), pairs)
     pairs_k = "[%s]" % ", ".join("(%r, K.%s)" % (n, n) for n in names)
     return "class K:\n%s\nprint(show(%s), state())\n" % (_ind(stmts), pairs_k)
 
@@ -154,7 +170,7 @@ def run_shard(shard):
     idx = 0
     for caller in CALLERS:
         for seq in sequences(maxlen, caller):
-            for pl in ("module", "function", "class"):
+            for pl in PLACEMENTS:
                 idx += 1
                 if idx % k != r:
                     continue
